@@ -188,6 +188,15 @@ func IntProps(propContainer map[string]object.PanObject) map[string]object.PanOb
 			) object.PanObject {
 				self, other, err := checkIntInfixArgs(args, "**", object.NewPanInt(1))
 				if err == nil {
+					// NOTE: calculate exactly as far as the result is within int64
+					// (float64 cannot hold integers over 2^53 precisely)
+					if other.Value >= 0 {
+						if res, ok := intPow(self.Value, other.Value); ok {
+							// NOTE: Int's descendants also call this
+							return object.NewInheritedInt(args[0].Proto(), res)
+						}
+					}
+
 					res := math.Pow(float64(self.Value), float64(other.Value))
 					// check if f is integer
 					if math.Floor(res) == res {
@@ -244,7 +253,8 @@ func IntProps(propContainer map[string]object.PanObject) map[string]object.PanOb
 				res := self.Value / other.Value
 
 				// HACK: convert round to floor
-				if res < 0 && self.Value%other.Value != 0 {
+				// (quotient is negative and truncated if signs differ and remainder is left)
+				if (self.Value < 0) != (other.Value < 0) && self.Value%other.Value != 0 {
 					// NOTE: Int's descendants also call this
 					return object.NewInheritedInt(args[0].Proto(), res-1)
 				}
@@ -459,6 +469,43 @@ func IntProps(propContainer map[string]object.PanObject) map[string]object.PanOb
 			},
 		),
 	}
+}
+
+// intPow returns base**exp (exp >= 0). ok is false if the result overflows int64.
+func intPow(base, exp int64) (int64, bool) {
+	res := int64(1)
+	for exp > 0 {
+		if exp&1 == 1 {
+			r, ok := mulInt64(res, base)
+			if !ok {
+				return 0, false
+			}
+			res = r
+		}
+
+		exp >>= 1
+		if exp > 0 {
+			b, ok := mulInt64(base, base)
+			if !ok {
+				return 0, false
+			}
+			base = b
+		}
+	}
+	return res, true
+}
+
+// mulInt64 returns a*b. ok is false if the result overflows int64.
+func mulInt64(a, b int64) (int64, bool) {
+	if a == 0 || b == 0 {
+		return 0, true
+	}
+
+	c := a * b
+	if (a == -1 && b == math.MinInt64) || (b == -1 && a == math.MinInt64) || c/b != a {
+		return 0, false
+	}
+	return c, true
 }
 
 func checkIntInfixArgs(
